@@ -124,7 +124,7 @@ def ownership_case(src: str):
             reg = x.props._registry if hasattr(x.props, "_registry") else {}
             return (type(x).__name__, [(k, snap(v)) for k, v in reg.items()])
         if isinstance(x, dict):
-            return ("dict", [(snap(k), snap(v)) for k, v in x.items()])
+            return (type(x).__name__, [(snap(k), snap(v)) for k, v in x.items()])
         if isinstance(x, (list, tuple)):
             return (type(x).__name__, [snap(v) for v in x])
         if x is ... or x is N.Nil:
@@ -147,7 +147,36 @@ def ownership_case(src: str):
         after = snap(S1)
         if after != before:
             return True, f"{name} changed its operand {src}: {before!r} -> {after!r}"[:700]
-    return False, "operands unchanged"
+    # ... nor a value passed in: plain containers and dict subclasses whose reads have side effects (a defaultdict
+    # inserts the key it is asked for), empty, partial and nested
+    import collections
+
+    def values():
+        dd = collections.defaultdict
+        yield lambda: {}
+        yield lambda: {"a": 1}
+        yield lambda: dd(list)
+        yield lambda: dd(int, {"a": 1})
+        yield lambda: dd(str, {"zz": 0})
+        yield lambda: dd(dict, {"a": dd(int)})
+        yield lambda: {"a": dd(int), "u": dd(list, {"q": "zz"})}
+        yield lambda: [dd(int), {"a": 1}]
+        yield lambda: [1, dd(list)]
+        yield lambda: collections.OrderedDict(b=1, a=2)
+    for mk in values():
+        for name, op in (("validate", lambda v: validate(S1, v)), ("==", lambda v: S1 == v), ("!=", lambda v: S1 != v),
+                         ("substitute", lambda v: substitute(S1, v)), ("%", lambda v: S1 % v)):
+            v = mk()
+            vb = snap(v)
+            try:
+                op(v)
+            except Exception:
+                pass
+            if snap(v) != vb:
+                return True, f"{name}({src}, value) mutated the value passed in: {vb!r} -> {snap(v)!r}"[:700]
+            if snap(S1) != before:
+                return True, f"{name} with value {vb!r} changed its operand {src}"[:700]
+    return False, "operands and values unchanged"
 
 
 def classify(detail: str) -> str:
